@@ -96,6 +96,16 @@ func (w *World) generate(sel func(fc *FuncContract) bool) {
 		if !sel(fc) || fc.Trusted || fc.FrameOnly {
 			continue
 		}
+		if reason, det := w.prog.Detached[fc.Key()]; det {
+			// the contract no longer attaches to the source: one failed obligation, no input
+			fv := &FnV{prog: w.prog, smt: w.smt, eff: w.eff, key: fc.Name, fc: fc, tags: map[string]bool{}, counters: map[string]int{},
+				inlined: map[string]bool{}, calledContracts: map[string]bool{}, instName: fc.Key()}
+			vc := &VC{Name: fc.Key() + "#contract.attach", Func: fc.Name, Kind: "contract.attach", Goal: "false", fv: fv, Props: fc.Props, Tier: fc.Tier,
+				Status: "detached", Solver: "type-checker", Output: "the contract of " + fc.Key() + " no longer type-checks against the source: " + reason,
+				ClauseText: "every clause of the contract must type-check against the function it annotates"}
+			w.res = append(w.res, &FuncResult{Key: fc.Name, Inst: fc.Key(), VCs: []*VC{vc}, Contract: fc})
+			continue
+		}
 		for _, inst := range w.instantiations(fc.Name) {
 			name := fc.Key() + instLabel(inst)
 			r := VerifyFunc(w.prog, w.smt, w.eff, fc.Name, fc, inst, name)
